@@ -172,7 +172,7 @@ def draw(rng):
     root = [["ctor", c["i"], direct.get(("c", c["i"]))] for c in ctors]
     items = [["mw", m["i"], direct.get(("m", m["i"]))] for m in mws] + \
             [["route", h["i"], direct.get(("h", h["i"]))] for h in handlers] + \
-            [["obs", o["i"]] for o in observers] + [["eh", k] for k in typed] + [["eh", k] for k in fallbacks]
+            [["obs", o["i"]] for o in observers]
     rng.shuffle(items)
     for it in [x for x in items if x[0] == "obs"]:
         if rng.random() < 0.5:
@@ -182,7 +182,7 @@ def draw(rng):
     def nestify(us, depth):
         out, i = [], 0
         while i < len(us):
-            if depth < 2 and rng.random() < 0.25:
+            if depth < 2 and rng.random() < 0.3:
                 k = rng.randrange(1, len(us) - i + 1)
                 out.append(["nest", nestify(us[i:i + k], depth + 1)])
                 i += k
@@ -192,22 +192,51 @@ def draw(rng):
         return out
 
     ebp = root + nestify(items, 0)
-
-    # the same error type may be handled by type at most once per blueprint: drop duplicates in one scope
-    def dedup(ops):
-        seen, out = set(), []
-        for op in ops:
-            if op[0] == "eh":
-                t = tuple(ehs[op[1]]["target"])
-                if t in seen:
-                    continue
-                seen.add(t)
-            if op[0] == "nest":
-                op = ["nest", dedup(op[1])]
-            out.append(op)
-        return out
-    ebp = dedup(ebp)
     ebp = localise(rng, ebp, ctors, handlers, mws, ehs, observers)
+
+    # by-type handlers: visibility is decided by the blueprint the *fallible component* is registered in, so
+    # put each one in that blueprint, in one that encloses it, or somewhere else (where it must not be seen)
+    def blueprints(ops, path, acc):
+        acc.append((path, ops))
+        k = 0
+        for op in ops:
+            if op[0] == "nest":
+                blueprints(op[1], path + [k], acc)
+                k += 1
+        return acc
+
+    def decl_path(ops, kind, i, path):
+        k = 0
+        for op in ops:
+            if op[0] == kind and op[1] == i:
+                return path
+            if op[0] == "nest":
+                r = decl_path(op[1], kind, i, path + [k])
+                if r is not None:
+                    return r
+                k += 1
+        return None
+    bps = blueprints(ebp, [], [])
+    by_path = {tuple(p): ops for p, ops in bps}
+
+    def place(k, ops):
+        t = tuple(ehs[k]["target"])
+        if any(op[0] == "eh" and tuple(ehs[op[1]]["target"]) == t for op in ops):
+            return  # one handler per error type and blueprint
+        ops.insert(rng.randrange(0, len(ops) + 1), ["eh", k])
+    for k in typed + fallbacks:
+        t = ehs[k]["target"]
+        if t == ["any"]:
+            place(k, ebp if rng.random() < 0.5 else rng.choice(bps)[1])
+            continue
+        dp = decl_path(ebp, {"c": "ctor", "m": "mw", "h": "route"}[t[0]], t[1], [])
+        r = rng.random()
+        if dp is None or r < 0.25:
+            place(k, rng.choice(bps)[1])
+        elif r < 0.6 or not dp:
+            place(k, by_path[tuple(dp)])
+        else:
+            place(k, by_path[tuple(dp[:rng.randrange(0, len(dp))])])
     return {"types": types, "ctors": ctors, "handlers": handlers, "mws": mws, "observers": observers, "ehs": ehs, "bp": ebp}
 
 
@@ -326,6 +355,6 @@ if __name__ == "__main__":
     import json
     import random
     import sys
-    s = make(random.Random(int(sys.argv[1]) if len(sys.argv) > 1 else 1), "e0")
+    s = build("e0", draw(random.Random(int(sys.argv[1]) if len(sys.argv) > 1 else 1)))
     print(json.dumps(s["err"]))
     print(gen_app.render(s))
